@@ -8,7 +8,8 @@ def main():
             S.SetCfg('flat', cmp='greater', uvec='std'), S.SetCfg('small', 3, 'std', cmp='less'), S.SetCfg('small', 2, 'flat', cmp='mod'),
             S.SetCfg('small', 4, 'std', cmp='greater', cat='ntr'), S.SetCfg('small', 1, 'flat', cmp='stateful'),
             S.SetCfg('flat', cmp='mix'), S.SetCfg('flat', cmp='mix', uvec='std', cat='ntr'), S.SetCfg('small', 2, 'flat', cmp='mix'), S.SetCfg('small', 3, 'std', cmp='mix'),
-            S.SetCfg('flat', cmp='transp'), S.SetCfg('flat', cmp='transp', uvec='std'), S.SetCfg('small', 4, 'flat', cmp='transp'), S.SetCfg('small', 6, 'std', cmp='transp')]
+            S.SetCfg('flat', cmp='transp'), S.SetCfg('flat', cmp='transp', uvec='std'), S.SetCfg('small', 4, 'flat', cmp='transp'), S.SetCfg('small', 6, 'std', cmp='transp'),
+            S.SetCfg('flat', cmp='selfref'), S.SetCfg('small', 3, 'flat', cmp='selfref')]
     if len(sys.argv) > 2: cfgs = [c for c in cfgs if sys.argv[2] in c.name()]
     ok, log = C.lake_build(['amcdriver'])
     if not ok: print(log[-2000:]); return
